@@ -1771,7 +1771,7 @@ class DesignSpace:
         data = tuple(design_values[name] for name in variable_names)
         # TODO: remove astype when numpy >= 2,
         # since int62 will be the default on windows.
-        return concatenate(data).astype(self.__get_common_dtype(data))
+        return concatenate(data, axis=-1).astype(self.__get_common_dtype(data))
 
     def get_pretty_table(
         self,
@@ -1995,7 +1995,11 @@ class DesignSpace:
         """
         file_path = Path(file_path)
         if file_path.suffix.startswith((".hdf", ".h5")):
-            self.to_hdf(file_path, append=options.get("append", False))
+            self.to_hdf(
+                file_path,
+                append=options.get("append", False),
+                hdf_node_path=options.get("hdf_node_path", ""),
+            )
         else:
             self.to_csv(file_path, **options)
 
